@@ -37,7 +37,7 @@ func (c14) Batches(tier string, seed uint64) []core.Batch {
 	var b []core.Batch
 	b = append(b, spread("matrix", 12, tierN(tier, 2, 8))...) // each batch: 3 of the 36 cells x N
 	b = append(b, spread("random", 4, tierN(tier, 40, 300))...)
-	b = append(b, spread("reject", 2, tierN(tier, 12, 60))...)
+	b = append(b, spread("reject", 2, tierN(tier, 21, 84))...)
 	b = append(b, spread("straddle", 4, tierN(tier, 12, 120))...)
 	b = append(b, spread("dpkgdeb", 4, tierN(tier, 1, 10))...)
 	return b
@@ -51,7 +51,7 @@ func (c14) Mandatory(tier string) []string {
 		}
 	}
 	return append(m, "control-position:first", "control-position:middle-or-last", "control-name:./control", "control-name:control", "extra-members", "via:Load", "via:LoadFile",
-		"reject:version-1.0", "reject:version-3.0", "reject:version-0.93", "reject:version-20.0", "reject:version-21.5", "reject:version-200.0", "reject:version-12.0", "reject:version-22", "reader:eof-with-last-member-byte", "reader:one-header-read-fails-once", "via:LoadFile-symlink", "control-tar:nested-control-first", "reject:no-debian-binary", "reject:no-control", "reject:no-data", "data:symlink", "data:dir", "data:empty-file", "repeat-loads-agree", "two-packages-open", "control:after-large-md5sums", "control:straddles-32KiB", "member-mtime>=2^31", "xz-dict-limit-lowered-and-restored")
+		"reject:version-1.0", "reject:version-3.0", "reject:version-0.93", "reject:version-20.0", "reject:version-21.5", "reject:version-200.0", "reject:version-12.0", "reject:version-22", "reader:eof-with-last-member-byte", "reader:one-header-read-fails-once", "via:LoadFile-symlink", "control-tar:nested-control-first", "reject:no-debian-binary", "reject:no-control", "reject:no-data", "reject:control-tar:no-control-file", "reject:control-tar:empty", "reject:control-tar:control-is-a-directory", "reject:via-LoadFile", "extra-member-with-a-bare-standard-name", "data:symlink", "data:dir", "data:empty-file", "repeat-loads-agree", "two-packages-open", "control:after-large-md5sums", "control:straddles-32KiB", "member-mtime>=2^31", "xz-dict-limit-lowered-and-restored")
 }
 
 func codecName(e string) string {
@@ -254,6 +254,23 @@ func (p c14) run(c *core.C, t *core.T, cs c14Case) {
 	switch {
 	case strings.HasPrefix(cs.Variant, "version:"):
 		m.Binary = strings.TrimPrefix(cs.Variant, "version:") + "\n"
+	case strings.HasPrefix(cs.Variant, "control-tar:"):
+		// a well-formed control tarball that holds no control file: only the other maintainer files, nothing at all,
+		// or a directory of that name
+		var keep []tarEnt
+		for _, e := range m.ControlFiles {
+			if e.Type == tar.TypeReg && (e.Name == "./control" || e.Name == "control") {
+				continue
+			}
+			keep = append(keep, e)
+		}
+		switch cs.Variant {
+		case "control-tar:empty":
+			keep = nil
+		case "control-tar:control-is-a-directory":
+			keep = append(keep, tarEnt{Name: "./control/", Type: tar.TypeDir, Mode: 0o755})
+		}
+		m.ControlFiles = keep
 	}
 	members, err := m.members()
 	if err != nil {
@@ -278,12 +295,32 @@ func (p c14) run(c *core.C, t *core.T, cs c14Case) {
 		if strings.HasPrefix(cs.Variant, "version:") {
 			tag = "version-" + strings.TrimPrefix(cs.Variant, "version:")
 		}
+		if strings.HasPrefix(cs.Variant, "control-tar:") {
+			tag = cs.Variant
+		}
 		c.Cover("reject:" + tag)
 		c.Nontrivial()
 		if err == nil {
 			c.Failf("Load accepted a package that must be rejected (%s; members %s): Control.Package=%q", cs.Variant, memberNames(members), d.Control.Package)
 		} else if d != nil {
 			c.Cover("reject:non-nil-Deb-with-error") // not demanded either way
+		}
+		// the same through the file entry point: a rejection is an error there too, not "no package and no error"
+		path := filepath.Join(t.WorkDir, "c14-reject.deb")
+		if os.WriteFile(path, raw, 0o644) == nil {
+			fd, closer, ferr := deb.LoadFile(path)
+			if ferr == nil {
+				if fd == nil {
+					c.Failf("LoadFile on a package that must be rejected (%s; members %s) returned neither a package nor an error", cs.Variant, memberNames(members))
+				} else {
+					c.Failf("LoadFile accepted a package that must be rejected (%s; members %s): Control.Package=%q", cs.Variant, memberNames(members), fd.Control.Package)
+				}
+			}
+			if closer != nil {
+				closer()
+			}
+			os.Remove(path)
+			c.Cover("reject:via-LoadFile")
 		}
 		return
 	}
@@ -319,6 +356,36 @@ func (p c14) run(c *core.C, t *core.T, cs c14Case) {
 	}
 	c.Cover("repeat-loads-agree")
 	c.Cover("via:Load")
+	// an extra member whose name is a standard one without its extension ("data", "control", "debian-binary.old"):
+	// whether such a package is loaded or refused is the loader's choice, but it is the same choice every time
+	if cs.Seed%4 == 1 {
+		dr := core.NewRand(cs.Seed, "bare-name")
+		extra := model.ArMember{Name: dr.Pick([]string{"data", "control", "data/", "control/", "data."}), Timestamp: 1, Mode: "100644", Data: []byte("not a tarball\n")}
+		at := 1 + dr.Intn(len(members))
+		ms := append(append(append([]model.ArMember{}, members[:at]...), extra), members[at:]...)
+		raw3 := model.WriteAr(ms, true)
+		var firstOutcome string
+		for i := 0; i < 16; i++ {
+			d, err := deb.Load(bytes.NewReader(raw3), "bare.deb")
+			outcome := "refused"
+			if err == nil {
+				outcome = fmt.Sprintf("loaded %+v|%s|%s", d.Control.Paragraph.Order, d.ControlExt, d.DataExt)
+				if l, lerr := listTar(d.Data); lerr != nil {
+					outcome += "|payload unreadable"
+				} else {
+					outcome += fmt.Sprintf("|%d payload entries", len(l))
+				}
+				d.Close()
+			}
+			if i == 0 {
+				firstOutcome = outcome
+			} else if outcome != firstOutcome {
+				c.Failf("loading the same bytes (members %s) repeatedly: load 1: %s; load %d: %s", memberNames(ms), firstOutcome, i+1, outcome)
+				break
+			}
+		}
+		c.Cover("extra-member-with-a-bare-standard-name")
+	}
 	// a source whose read of ONE member header fails once with an I/O error: Load must report it, or load the
 	// whole package - not hand out an index that silently lacks the members from there on
 	for hi, off := range model.HeaderOffsets(members) {
@@ -564,7 +631,7 @@ func (p c14) RunBatch(t *core.T, b core.Batch) {
 			emit(c14Case{Seed: r.U64(), CExt: r.Pick([]string{"gz", "gz", "", "zst", "lzma"}), DExt: "", Variant: "ok", Straddle: true})
 		}
 	case "reject":
-		vs := []string{"version:1.0", "version:3.0", "version:0.93", "version:20.0", "version:21.5", "version:200.0", "version:12.0", "version:22", "missing:debian-binary", "missing:control", "missing:data"}
+		vs := []string{"version:1.0", "version:3.0", "version:0.93", "version:20.0", "version:21.5", "version:200.0", "version:12.0", "version:22", "missing:debian-binary", "missing:control", "missing:data", "control-tar:no-control-file", "control-tar:empty", "control-tar:control-is-a-directory"}
 		for i := 0; i < b.N; i++ {
 			emit(c14Case{Seed: r.U64(), CExt: r.Pick([]string{"", "gz"}), DExt: r.Pick([]string{"", "gz"}), Variant: vs[(i+b.Arg)%len(vs)]})
 		}
